@@ -7,6 +7,10 @@ import (
 	"strings"
 )
 
+// The fingerprint of a grouped label set must not depend on the order of the map: labels are
+// stored in ingestion order, so equal label sets come in different key orders.
+const sortedLabelsHash = "cityHash64(arraySort(arrayZip(mapKeys(labels),mapValues(labels))))"
+
 type ByWithoutPlanner struct {
 	Main               shared.SQLRequestPlanner
 	Labels             []string
@@ -33,7 +37,7 @@ func (b *ByWithoutPlanner) processSimple(ctx *shared.PlannerContext,
 	return sql.NewSelect().With(withMain).
 		Select(
 			sql.NewSimpleCol("timestamp_ns", "timestamp_ns"),
-			sql.NewSimpleCol("cityHash64(labels)", "fingerprint"),
+			sql.NewSimpleCol(sortedLabelsHash, "fingerprint"),
 			sql.NewCol(&byWithoutFilterCol{
 				labelsCol: sql.NewRawObject(withMain.GetAlias() + ".labels"),
 				labels:    b.Labels,
@@ -50,7 +54,7 @@ func (b *ByWithoutPlanner) processTSTable(ctx *shared.PlannerContext,
 	if b.LabelsCache != nil && *b.LabelsCache != nil {
 		labels = sql.NewSelect().Select(
 			sql.NewRawObject("fingerprint"),
-			sql.NewSimpleCol("cityHash64(labels)", "new_fingerprint"),
+			sql.NewSimpleCol(sortedLabelsHash, "new_fingerprint"),
 			sql.NewCol(&byWithoutFilterCol{
 				labelsCol: sql.NewRawObject("a.labels"),
 				labels:    b.Labels,
@@ -72,7 +76,7 @@ func (b *ByWithoutPlanner) processTSTable(ctx *shared.PlannerContext,
 		if err != nil {
 			return nil, err
 		}
-		labels = from.Select(append(cols, sql.NewSimpleCol("cityHash64(labels)", "new_fingerprint"))...)
+		labels = from.Select(append(cols, sql.NewSimpleCol(sortedLabelsHash, "new_fingerprint"))...)
 	}
 
 	withLabels := sql.NewWith(labels, fmt.Sprintf("labels_%d", ctx.Id()))
